@@ -1,5 +1,5 @@
 """C02 — rendering is total: no internal error, no hang, at least one page."""
-from harness import docs, pm, pm_corr, widegen, wide_trace
+from harness import docs, pm, pm_corr, pm_foot_corr, pm_oof_corr, pm_stage2, widegen, wide_trace
 from vlib import sx
 from vlib.framework import PropCheck
 
@@ -28,7 +28,7 @@ def adversarial_doc(rng):
 class C02(PropCheck):
     id = 'C02'
     extractors = ()
-    modules = ('WpModel.Props.C02', 'WpModel.Props.C02Pm2')
+    modules = ('WpModel.Props.C02', 'WpModel.Props.C02Pm2', 'WpModel.Props.C02Oof', 'WpModel.Props.C03Foot')
     trusted_base = (
         'modelled, not verified: the pagination functions of block.py / page.py (see C01); everything outside the '
         'model (inline layout, tables, flex, grid, drawing, PDF writing) is exercised only by the sampled totality runs',
@@ -43,6 +43,17 @@ class C02(PropCheck):
             'non-trivial = at least 2 pages')
         pm_corr.add_cases(run, sec, run.n(120, 3000), skip_errors=False)
         pm_corr.add_cases(run, sec, run.n(120, 3000), gen=adversarial_doc, skip_errors=False)
+        sec_oof = run.section(
+            'pm-oof-outcomes',
+            'stage 2a of the pagination model: documents with absolutely positioned boxes, full-width floats and clear; '
+            'outcome kind and full pagination compared with Model/PaginateOof; non-trivial = at least 2 pages')
+        pm_oof_corr.add_cases(run, sec_oof, run.n(80, 2500), skip_errors=False)
+        sec_foot = run.section(
+            'pm-foot-outcomes',
+            'stage 2b of the pagination model: documents with footnotes (every policy, area with max-height, named '
+            'pages); outcome kind and full pagination compared with Model/PaginateFoot; non-trivial = at least 2 pages '
+            'and one footnote')
+        pm_foot_corr.add_cases(run, sec_foot, run.n(80, 2500), skip_errors=False)
         sec2 = run.section(
             'write-pdf-total',
             'the same documents rendered through the public API and written to PDF: the model of the unmodelled '
@@ -88,24 +99,32 @@ class C02(PropCheck):
     def classify(self, d):
         if d['section'] == 'totality-families' and self._family_known.get(d['meta']['doc_id']) == d['impl']:
             return 'family-documents-known'
-        if d['section'] == 'pm-outcomes' and d['impl'] == 'err:IndexError@page.py:_update_page_groups':
+        if d['section'] in ('pm-outcomes', 'pm-oof-outcomes', 'pm-foot-outcomes') and (
+                d['impl'] == 'err:IndexError@page.py:_update_page_groups'):
             return 'page-groups-indexerror'
+        if d['section'] == 'pm-foot-outcomes':
+            return pm_foot_corr.classify(pm_foot_corr.doc_from_json(d['meta']['doc']), d['impl'])
+        if False:
+            return ''
         if d['section'] == 'wide-total' and d['impl'].startswith('err:'):
             if d['impl'].endswith('@inline.py:skip_first_whitespace') and 'flex' in d['meta'].get('features', ()):
                 return 'flex-item-resume-crash'
         return None
 
     def finding_replays(self):
-        return {'flex-item-resume-crash': flex_resume_crash, 'page-groups-indexerror': page_groups_crash}
+        return {'flex-item-resume-crash': flex_resume_crash, 'page-groups-indexerror': page_groups_crash,
+                'footnote-policy-block-crash': pm_foot_corr.FINDING_REPLAYS['footnote-policy-block-crash'],
+                'footnote-page-groups-attributeerror':
+                    pm_foot_corr.FINDING_REPLAYS['footnote-page-groups-attributeerror']}
 
     def judge(self, d):
         if d['impl'].startswith('err:'):
             return f'rendering failed with {d["impl"]}'
         if d['impl'] == 'bad-output':
             return 'no page or no PDF produced'
-        if d['section'] == 'pm-outcomes':
-            doc = pm_corr.doc_from_json(d['meta']['doc'])
-            return pm_corr.progress_violation(doc, d['impl'])
+        if d['section'] == 'pm-outcomes' or d['section'] in pm_stage2.SECTIONS:
+            doc = pm_stage2.corr(d['section']).doc_from_json(d['meta']['doc'])
+            return pm_stage2.corr(d['section']).progress_violation(doc, d['impl'])
         return None
 
     def search(self, run, failures):
@@ -118,11 +137,10 @@ class C02(PropCheck):
             out = wide_trace.render_outcome(meta['html'])
             return None if out == 'ok' else f'rendering failed with {out}'
         if 'doc' in meta:
-            doc = pm_corr.doc_from_json(meta['doc'])
-            out = pm_corr.real_line(doc)
+            module, doc, out = pm_stage2.doc_and_real(inp)
             if out.startswith('err:'):
                 return f'rendering failed with {out}'
-            return pm_corr.progress_violation(doc, out)
+            return module.progress_violation(doc, out)
         return None
 
 
